@@ -324,11 +324,13 @@ Definition lines_strict_b (o : objfile) : bool :=
   | None => true
   end.
 
-(* every label's recorded position spells the label in the source (case-insensitively) *)
+(* every label's recorded position lies in the source and spells the label there (case-insensitively) *)
 Definition label_spans_ok_b (o : objfile) : bool :=
   match o_sym o with
   | Some st => match st_debug st with
-               | Some d => forallb (fun p => str_eqb (upper (substr (ds_src d) (sd_src_start (snd p)) (sd_src_start (snd p) + byte_len (fst p)))) (fst p))
+               | Some d => forallb (fun p => (0 <=? sd_src_start (snd p))
+                                             && (sd_src_start (snd p) + byte_len (fst p) <=? byte_len (ds_src d))
+                                             && str_eqb (upper (substr (ds_src d) (sd_src_start (snd p)) (sd_src_start (snd p) + byte_len (fst p)))) (fst p))
                                    (st_labels st)
                | None => true
                end
